@@ -109,6 +109,122 @@ def impl_run(case):
     return obs
 
 
+# ----------------------------------------------------------------- histories: several writes sharing caller objects
+def history_run(h):
+    """2-3 writes of DIFFERENT well-formed graphs into different fresh targets that re-use caller objects
+    (`share`): "metadata" = one GeffMetadata instance for all writes; "read-metadata" = the metadata object
+    returned by reading the previous geff; "props" = the same property dicts / numpy arrays handed to every
+    write.  In the Lean model write_arrays is a pure function of its arguments, so whatever the shared objects
+    went through before cannot matter; each step is judged by the specification oracle alone."""
+    import copy
+
+    from geff.core_io import read_to_memory, write_arrays
+
+    share = h["share"]
+    steps = h["steps"]
+    shared_md = make_metadata(h.get("md") or {}) if share == "metadata" else None
+    shared_props = None
+    prev_md = None
+    out = []
+    for k, st in enumerate(steps):
+        g = R.build_geff(st["g"])
+        md_json = st.get("md") or h.get("md") or {}
+        if share == "metadata":
+            md_obj = shared_md
+        elif share == "read-metadata" and prev_md is not None:
+            md_obj = prev_md
+        else:
+            md_obj = make_metadata(md_json)
+        if share == "props":
+            # the same dict objects (and arrays) for every write; step k uses the shared dicts as they are now
+            if shared_props is None:
+                shared_props = (copy.deepcopy(g["node_props"]), copy.deepcopy(g["edge_props"]))
+            node_props, edge_props = shared_props
+            want = {**g, "node_props": R.build_geff(steps[0]["g"])["node_props"], "edge_props": R.build_geff(steps[0]["g"])["edge_props"]}
+        else:
+            node_props, edge_props = copy.deepcopy(g["node_props"]), copy.deepcopy(g["edge_props"])
+            want = g
+        ob = {"step": k, "write": None, "read": None, "spec": []}
+        out.append(ob)
+        with R.StoreCtx(st.get("store", "mem")) as store:
+            try:
+                write_arrays(store, g["node_ids"], node_props, g["edge_ids"], edge_props, md_obj,
+                             zarr_format=st.get("fmt", 2), structure_validation=st.get("validate", True))
+                ob["write"] = "ok"
+            except BaseException as e:  # noqa: BLE001
+                ob["write"] = exc_class(e)
+                ob["msg"] = str(e)[:300]
+                break
+            try:
+                o = read_to_memory(store)      # always a validated read (also after structure_validation=False)
+                ob["read"] = "ok"
+            except BaseException as e:  # noqa: BLE001
+                ob["read"] = exc_class(e)
+                ob["msg"] = str(e)[:300]
+                break
+            ob["spec"] = R.same_graph(expected_graph(want, md_json), o)
+            prev_md = o["metadata"]
+            if ob["spec"]:
+                break
+    return out
+
+
+def history_cases(rng, n):
+    """histories of well-formed graphs whose property sets, dtypes and sizes differ from step to step"""
+    out = []
+
+    def small(kind):
+        nn = {"empty": 0, "one": 1, "some": rng.randint(2, 6)}[kind]
+        idt = rng.choice(R.INT_DTYPES)
+        ii = np.iinfo(idt)
+        nodes = rng.sample(range(max(int(ii.min), -100), min(int(ii.max), 100) + 1), nn)
+        ne = 0 if nn == 0 else rng.randint(0, 4)
+        edges = [[rng.choice(nodes), rng.choice(nodes)] for _ in range(ne)]
+        return ({"dtype": idt, "shape": [nn], "flat": nodes}, {"dtype": idt, "shape": [ne, 2], "flat": [x for e in edges for x in e]})
+
+    pool = ["a", "b", "c", "values", "t", "ü"]
+    for i in range(n):
+        share = ["metadata", "metadata", "read-metadata", "props"][i % 4]
+        k = rng.choice([2, 2, 3])
+        steps = []
+        names_prev_n, names_prev_e = None, None
+        for j in range(k):
+            nid, eid = small(rng.choice(["empty", "one", "some", "some"]))
+            if share == "props" and j > 0:
+                nid, eid = steps[0]["g"]["node_ids"], steps[0]["g"]["edge_ids"]       # same graph, same dict objects
+            nn, ne = nid["shape"][0], eid["shape"][0]
+            if share == "read-metadata" and j > 0:
+                # the metadata read from the previous geff describes its properties: the next graph keeps those names
+                n_names = names_prev_n + [x for x in rng.sample(pool, rng.randint(0, 2)) if x not in names_prev_n]
+                e_names = names_prev_e + [x for x in rng.sample(pool, rng.randint(0, 1)) if x not in names_prev_e]
+            else:
+                n_names = rng.sample(pool, rng.randint(0, 3))
+                e_names = rng.sample(pool, rng.randint(0, 2))
+            g = {"node_ids": nid, "edge_ids": eid,
+                 "node_props": [[nm, R.rand_prop(rng, nn)] for nm in n_names],
+                 "edge_props": [[nm, R.rand_prop(rng, ne)] for nm in e_names]}
+            R.set_layouts(rng, g, p=0.2)
+            names_prev_n, names_prev_e = n_names, e_names
+            steps.append({"g": g, "fmt": rng.choice([2, 3]), "validate": rng.random() < 0.7,
+                          "store": "mem" if rng.random() < 0.9 else rng.choice(["local", "path", "str"])})
+        h = {"share": share, "steps": steps, "origin": "history-" + share}
+        if share == "metadata" and rng.random() < 0.5:
+            h["md"] = {"directed": rng.random() < 0.5}
+        out.append(h)
+    # the minimal scenario: A = {p, q}, then B = {p} through ONE metadata object
+    nid, eid = tiny_ids("uint8", 2, 1)
+    p_ = ["p", {"values": det_array("int16", [2], 1), "missing": None}]
+    q_ = ["q", {"values": det_array("float32", [2, 2], 2), "missing": {"dtype": "bool", "shape": [2], "flat": [False, True]}}]
+    w_ = ["w", {"values": det_array("uint8", [1], 3), "missing": None}]
+    for val in (True, False):
+        out.append({"share": "metadata", "origin": "history-metadata", "steps": [
+            {"g": {"node_ids": nid, "edge_ids": eid, "node_props": [p_, q_], "edge_props": [w_]}, "fmt": 2, "validate": val},
+            {"g": {"node_ids": nid, "edge_ids": eid, "node_props": [p_], "edge_props": []}, "fmt": 3, "validate": val},
+            {"g": {"node_ids": tiny_ids("int64", 0, 0)[0], "edge_ids": tiny_ids("int64", 0, 0)[1], "node_props": [], "edge_props": []},
+             "fmt": 2, "validate": True}]})
+    return out
+
+
 # ----------------------------------------------------------------- well-formedness (python mirror, for tagging only)
 def wf_prop(p, n):
     v, m = p["values"], p["missing"]
@@ -483,9 +599,11 @@ def run(ck: common.Check):
                "graphs (N<=40, E<=80, <=6 properties, special floats by bit pattern, unicode strings, adversarial names) + a "
                "malformed stream; a share of the arrays in other memory layouts (Fortran order, swapped axes, strided, negative "
                "stride, big-endian, read-only); unsquish arguments (valid and invalid); every case on MemoryStore x zarr_format "
-               "2 and 3, a sample on LocalStore/Path/str; "
+               "2 and 3, a sample on LocalStore/Path/str; histories of 2-3 writes of different well-formed graphs into fresh "
+               "targets sharing one GeffMetadata instance / the metadata read from the previous geff / the same property "
+               "dicts, each followed by a validated read (also after structure_validation=False); "
                "non-trivial = at least one node or one property; distinct = distinct canonical case JSON")
-    cases = [c for c in R.corpus(PROP)]
+    cases = [c for c in R.corpus(PROP) if "steps" not in c]
     base = rotate_layouts(exhaustive(ck.quick)) + special_cases()
     nrand = 700 if ck.quick else 3000
     nmal = 150 if ck.quick else 600
@@ -507,6 +625,26 @@ def run(ck: common.Check):
     ck.extra["cases_by_store"] = {k: sum(1 for c in cases if c.get("store", "mem") == k) for k in ["mem", *kinds]}
 
     obs_all = common.pmap(impl_run, cases, chunksize=8)
+
+    # histories (shared caller objects across several writes)
+    hists = [h for h in R.corpus(PROP) if "steps" in h] + history_cases(ck.rng, 240 if ck.quick else 2500)
+    hobs = common.pmap(history_run, hists, chunksize=4)
+    for h, obs in zip(hists, hobs):
+        last = obs[-1]
+        good = last["write"] == "ok" and last["read"] == "ok" and not last["spec"]
+        ck.case({"history": h}, f"history:{h['share']}:{len(h['steps'])}-steps:" + ("ok" if good else f"step{last['step']}-fails"),
+                nontrivial=True)
+        if good:
+            continue
+        key = {"metadata": "C01:history-shared-metadata", "read-metadata": "C01:history-metadata-from-read",
+               "props": "C01:history-shared-props"}[h["share"]]
+        if last["step"] == 0:
+            key = "C01:write-raises" if last["write"] != "ok" else ("C01:read-raises" if last["read"] != "ok" else last["spec"][0][0])
+        what = (f"history of {len(h['steps'])} writes sharing caller objects ({h['share']}): step {last['step']} "
+                + (f"write_arrays raised {last['write']}: {last.get('msg')}" if last["write"] != "ok" else
+                   f"validated read raised {last['read']}: {last.get('msg')}" if last["read"] != "ok" else last["spec"][0][1]))
+        ck.fail(key, what, {"history": h}, last, "every well-formed write succeeds and round-trips, whatever the shared objects went through")
+    ck.extra["histories"] = len(hists)
 
     drv = ck.driver()
     reqs, index = [], []
@@ -573,6 +711,13 @@ def run(ck: common.Check):
 
 def replay(rp):
     c = rp["case"]
+    if "history" in c:
+        obs = history_run(c["history"])
+        last = obs[-1]
+        ok = last["write"] == "ok" and last["read"] == "ok" and not last["spec"]
+        print(json.dumps({"share": c["history"]["share"], "steps": [{k: v for k, v in o.items()} for o in obs]}, ensure_ascii=False, default=str))
+        print("REPLAY: property holds on this input" if ok else "REPLAY: property FAILS on this input")
+        return 0 if ok else 1
     ob = impl_run(c)
     wf = wf_case(c)
     print(json.dumps({"well_formed": wf, "write": ob["write"], "write_msg": ob.get("write_msg"), "read": ob["read"],
